@@ -132,3 +132,27 @@ func VH_C16_reactivation_error_cause() {
 		vrt.Assert(buf[2*i] == ids[i] && buf[2*i+1] == causes[i], "pairs are interleaved in order")
 	}
 }
+
+// many units: the extended PCO has a 16-bit length, so a list may hold hundreds of (empty) units. Wire image written
+// by hand, identifiers symbolic through an uninterpreted function of the position; every unit is parsed back, and
+// the serialisation of the parsed list is the input again.
+func VH_C16_pco_many() {
+	vrt.Unwind(4000)
+	n := []int{83, 84, 85, 86, 300, 1000}[vrt.Choose("units", 0, 5)]
+	ids := vrt.BytesSym("ids", 4096)
+	vrt.Assume(len(ids) >= 2*n)
+	ids = ids[:2*n] // concrete length, contents still an uninterpreted function of the position
+	wire := make([]byte, 0, 1+3*n)
+	wire = append(wire, 0x80)
+	for i := 0; i < n; i++ {
+		wire = append(wire, ids[2*i], ids[2*i+1], 0)
+	}
+	pco := NewProtocolConfigurationOptions()
+	vrt.Assert(pco.UnMarshal(wire) == nil, "PCO: a list of many empty units is accepted")
+	vrt.Assert(len(pco.ProtocolOrContainerList) == n, "PCO: every unit of a long list is parsed")
+	for _, k := range []int{0, 82, n - 2, n - 1} {
+		u := pco.ProtocolOrContainerList[k]
+		vrt.Assert(u.ProtocolOrContainerID == uint16(ids[2*k])<<8|uint16(ids[2*k+1]) && u.LengthOfContents == 0, "PCO: units of a long list keep their identifier and order")
+	}
+	vrt.Equal(pco.Marshal(), wire, "PCO: serialising the parsed long list reproduces the input")
+}
